@@ -812,9 +812,20 @@ type Sent struct {
 // newline. It is used ONLY to attribute a returned text to the remote that
 // sent it when the strict relation fails; it never decides a verdict.
 func loose(text string, ids []string) string {
-	for _, id := range ids {
-		text = strings.ReplaceAll(text, "+R"+id+"-", "+A")
+	// "+R" <5 characters> "-"  →  "+A", whatever the cluster id
+	var b strings.Builder
+	for i := 0; i < len(text); {
+		if strings.HasPrefix(text[i:], "+R") && i+8 <= len(text) && text[i+7] == '-' {
+			b.WriteString("+A")
+			i += 8
+			continue
+		}
+		b.WriteByte(text[i])
+		i++
 	}
+	text = b.String()
+	// a relay that used the empty cluster id
+	text = strings.ReplaceAll(text, "+R-", "+A")
 	text = strings.ReplaceAll(text, "+A", "")
 	text = strings.ReplaceAll(text, "\r", "")
 	return strings.TrimRight(text, "\n")
@@ -873,8 +884,13 @@ func RelayDiff(sent, id, got string, ids []string, detail string) string {
 	if cls == "stream-name" {
 		cls += EOLFeature(sent)
 	}
-	if strings.HasPrefix(detail, "ws:") {
+	if strings.HasPrefix(detail, "ws:") && eolNorm(got) == eolNorm(want) {
+		// the deviation is exactly a normalisation of line endings
 		cls += ":sent=" + detail
 	}
 	return cls
+}
+
+func eolNorm(s string) string {
+	return strings.TrimRight(strings.ReplaceAll(s, "\r", ""), "\n")
 }
